@@ -1,4 +1,302 @@
 package main
 
-// extra tables are added here as further properties are wired in.
-func extra() {}
+import (
+	"fmt"
+	"go/ast"
+	"go/token"
+	"sort"
+	"strings"
+)
+
+// extra tables: lock/access table (C14), map-range sites (C13), ranger
+// constants and groupBy twins (C19).
+func extra() {
+	accessTable()
+	mapRangeSites()
+	rangerConsts()
+}
+
+// ---- C14: which shared fields are read/written under which locks -----------
+
+type access struct {
+	field string
+	write bool
+	locks []string
+}
+
+func recvType(fd *ast.FuncDecl) (name, typ string) {
+	if fd.Recv == nil || len(fd.Recv.List) == 0 {
+		return "", ""
+	}
+	f := fd.Recv.List[0]
+	if len(f.Names) > 0 {
+		name = f.Names[0].Name
+	}
+	t := f.Type
+	if st, ok := t.(*ast.StarExpr); ok {
+		t = st.X
+	}
+	if id, ok := t.(*ast.Ident); ok {
+		typ = id.Name
+	}
+	return
+}
+
+var sharedFields = map[string]bool{"data": true, "helpers": true}
+var sharedGlobals = map[string]bool{"cache": true}
+
+func accessesOf(fd *ast.FuncDecl, pkg string) []access {
+	rname, rtyp := recvType(fd)
+	held := map[string]bool{}
+	var out []access
+	lockName := func(e ast.Expr) string {
+		switch t := e.(type) {
+		case *ast.SelectorExpr:
+			if id, ok := t.X.(*ast.Ident); ok && id.Name == rname && rtyp != "" {
+				return rtyp + "." + t.Sel.Name
+			}
+			return "?" + pr(t)
+		case *ast.Ident:
+			return pkg + "." + t.Name
+		}
+		return "?" + pr(e)
+	}
+	heldList := func() []string {
+		l := []string{}
+		for k, v := range held {
+			if v {
+				l = append(l, k)
+			}
+		}
+		sort.Strings(l)
+		return l
+	}
+	written := map[ast.Expr]bool{}
+	var visitExpr func(e ast.Node)
+	visitExpr = func(n ast.Node) {
+		ast.Inspect(n, func(x ast.Node) bool {
+			switch t := x.(type) {
+			case *ast.FuncLit:
+				return false // closures run later (deferred unlocks etc.)
+			case *ast.SelectorExpr:
+				if sharedFields[t.Sel.Name] {
+					owner := "?"
+					if id, ok := t.X.(*ast.Ident); ok {
+						if id.Name == rname && rtyp != "" {
+							owner = rtyp
+						} else {
+							owner = "other:" + id.Name
+						}
+					} else {
+						owner = "other:" + norm(pr(t.X))
+					}
+					out = append(out, access{owner + "." + t.Sel.Name, written[t], heldList()})
+				}
+			case *ast.Ident:
+				if sharedGlobals[t.Name] && t.Obj != nil && t.Obj.Kind == ast.Var {
+					out = append(out, access{pkg + "." + t.Name, written[t], heldList()})
+				}
+			}
+			return true
+		})
+	}
+	var walk func(s ast.Stmt)
+	walk = func(s ast.Stmt) {
+		switch t := s.(type) {
+		case *ast.BlockStmt:
+			for _, x := range t.List {
+				walk(x)
+			}
+		case *ast.ExprStmt:
+			if ce, ok := t.X.(*ast.CallExpr); ok {
+				if se, ok := ce.Fun.(*ast.SelectorExpr); ok && len(ce.Args) == 0 {
+					if se.Sel.Name == "Lock" {
+						held[lockName(se.X)] = true
+						return
+					}
+					if se.Sel.Name == "Unlock" {
+						held[lockName(se.X)] = false
+						return
+					}
+				}
+			}
+			visitExpr(t)
+		case *ast.DeferStmt:
+			// defer X.Unlock(): the lock stays held to the end of the function
+		case *ast.AssignStmt:
+			for _, l := range t.Lhs {
+				if ix, ok := l.(*ast.IndexExpr); ok {
+					written[ix.X] = true
+				} else {
+					written[l] = true
+				}
+			}
+			for _, r := range t.Rhs {
+				visitExpr(r)
+			}
+			for _, l := range t.Lhs {
+				visitExpr(l)
+			}
+		case *ast.IfStmt:
+			if t.Init != nil {
+				walk(t.Init)
+			}
+			visitExpr(t.Cond)
+			walk(t.Body)
+			if t.Else != nil {
+				walk(t.Else)
+			}
+		case *ast.ForStmt:
+			if t.Init != nil {
+				walk(t.Init)
+			}
+			if t.Cond != nil {
+				visitExpr(t.Cond)
+			}
+			walk(t.Body)
+		case *ast.RangeStmt:
+			visitExpr(t.X)
+			walk(t.Body)
+		case *ast.ReturnStmt:
+			visitExpr(t)
+		case nil:
+		default:
+			visitExpr(t)
+		}
+	}
+	walk(fd.Body)
+	return out
+}
+
+func accessTable() {
+	type row struct {
+		fn string
+		as []access
+	}
+	var rows []row
+	for _, fp := range []struct{ file, pkg string }{{"context.go", "plush"}, {"plush.go", "plush"}, {"helpers/map.go", "helpers"}, {"template.go", "plush"}} {
+		f := parseFile(fp.file)
+		for _, d := range f.Decls {
+			fd, ok := d.(*ast.FuncDecl)
+			if !ok || fd.Body == nil {
+				continue
+			}
+			_, rt := recvType(fd)
+			name := fd.Name.Name
+			if rt != "" {
+				name = rt + "." + name
+			}
+			as := accessesOf(fd, fp.pkg)
+			if len(as) > 0 {
+				rows = append(rows, row{name, as})
+			}
+		}
+	}
+	sort.Slice(rows, func(i, j int) bool { return rows[i].fn < rows[j].fn })
+	fmt.Println("(* (function, accesses in source order: (location, is_write, locks held)) *)")
+	fmt.Println("Definition access_table : list (string * list (string * bool * list string)) :=\n  [")
+	for i, r := range rows {
+		items := []string{}
+		for _, a := range r.as {
+			ls := []string{}
+			for _, l := range a.locks {
+				ls = append(ls, q(l))
+			}
+			w := "false"
+			if a.write {
+				w = "true"
+			}
+			items = append(items, fmt.Sprintf("(%s, %s, [%s])", q(a.field), w, strings.Join(ls, "; ")))
+		}
+		sep := ";"
+		if i == len(rows)-1 {
+			sep = ""
+		}
+		fmt.Printf("   (%s, [%s])%s\n", q(r.fn), strings.Join(items, "; "), sep)
+	}
+	fmt.Println("  ].\n")
+}
+
+// ---- C13: every range over a map-typed *field or local we can recognise* ---
+// (syntactic: range over an expression whose last selector is a known map
+// field, or MapKeys()); enough to notice a re-introduced range over Pairs.
+var mapFields = map[string]bool{"Pairs": true, "data": true, "helpers": true}
+
+func mapRangeSites() {
+	sites := []string{}
+	for _, file := range []string{"compiler.go", "context.go", "partial_helper.go", "plush.go", "helper_context.go", "template.go", "user_function.go", "iterators.go", "helpers/content/for.go", "helpers/content/of.go", "ast/hash_literal.go"} {
+		f := parseFile(file)
+		for _, d := range f.Decls {
+			fd, ok := d.(*ast.FuncDecl)
+			if !ok || fd.Body == nil {
+				continue
+			}
+			ast.Inspect(fd.Body, func(n ast.Node) bool {
+				switch t := n.(type) {
+				case *ast.RangeStmt:
+					x := norm(pr(t.X))
+					last := x
+					if i := strings.LastIndex(x, "."); i >= 0 {
+						last = x[i+1:]
+					}
+					if mapFields[last] || x == "data" || x == "helpers" || strings.HasSuffix(x, ".All()") {
+						sites = append(sites, fd.Name.Name+": range "+x)
+					}
+				case *ast.CallExpr:
+					if se, ok := t.Fun.(*ast.SelectorExpr); ok && se.Sel.Name == "MapKeys" {
+						sites = append(sites, fd.Name.Name+": "+norm(pr(t)))
+					}
+				}
+				return true
+			})
+		}
+	}
+	sort.Strings(sites)
+	fmt.Printf("Definition map_range_sites : list string := [%s].\n\n", joinQ(sites))
+}
+
+// ---- C19: constructor constants of the ranger iterators, groupBy twins ------
+func rangerConsts() {
+	ps := []pair{}
+	for _, fl := range []struct{ file, fn string }{
+		{"helpers/iterators/range.go", "Range"}, {"helpers/iterators/between.go", "Between"}, {"helpers/iterators/until.go", "Until"},
+		{"iterators.go", "rangeHelper"}, {"iterators.go", "betweenHelper"}, {"iterators.go", "untilHelper"}} {
+		f := parseFile(fl.file)
+		fd := findFunc(f, fl.fn)
+		v := "UNRECOGNISED"
+		if fd != nil && len(fd.Body.List) == 1 {
+			if rs, ok := fd.Body.List[0].(*ast.ReturnStmt); ok && len(rs.Results) == 1 {
+				v = norm(pr(rs.Results[0]))
+			}
+		}
+		ps = append(ps, pair{fl.fn, v})
+	}
+	emitPairs("ranger_consts", "string * string", ps, false)
+	nexts := []pair{}
+	for _, file := range []string{"helpers/iterators/range.go", "iterators.go"} {
+		f := parseFile(file)
+		for _, d := range f.Decls {
+			fd, ok := d.(*ast.FuncDecl)
+			if !ok || fd.Name.Name != "Next" {
+				continue
+			}
+			if _, rt := recvType(fd); rt == "ranger" {
+				nexts = append(nexts, pair{file, normStmts(fd.Body.List)})
+			}
+		}
+	}
+	emitPairs("ranger_next", "string * string", nexts, false)
+	gb := func(file, fn string) string {
+		fd := findFunc(parseFile(file), fn)
+		if fd == nil {
+			return "UNRECOGNISED:" + fn
+		}
+		s := normStmts(fd.Body.List)
+		s = strings.ReplaceAll(s, "errors.New(\"E\"", "ERR(")
+		s = strings.ReplaceAll(s, "fmt.Errorf(\"E\"", "ERR(")
+		return s
+	}
+	fmt.Printf("Definition groupby_src_a : string := %s.\n\n", q(gb("helpers/iterators/group_by.go", "GroupBy")))
+	fmt.Printf("Definition groupby_src_b : string := %s.\n\n", q(gb("iterators.go", "GroupByHelper")))
+	_ = token.ADD
+}
